@@ -77,6 +77,11 @@ pub fn run(ctx: &Ctx) -> Outcome {
 
 /// Re-execute one recorded witness; returns the failure messages (empty = passes now).
 pub fn replay(ctx: &Ctx, case: &J) -> Vec<String> {
+    match case.str_of("kind").as_str() {
+        "panic" => return replay_panic(case),
+        "runner-crash" => return vec!["runner-level crash record: re-run the check with the recorded seed".into()],
+        _ => {}
+    }
     match ctx.prop.as_str() {
         "C01" => c01::replay(case),
         "C03" => c03::replay(case),
@@ -97,6 +102,30 @@ pub fn replay(ctx: &Ctx, case: &J) -> Vec<String> {
         "C13" => c13::replay(case),
         "C14" => c14::replay(case),
         other => vec![format!("replay not available for {}", other)],
+    }
+}
+
+/// generic replay of a library panic recorded by the sharded runner: every text entry point on the recorded input
+fn replay_panic(case: &J) -> Vec<String> {
+    let code = case.str_of("lang");
+    let input = case.str_of("input");
+    if !api::LANGS.contains(&code.as_str()) {
+        return vec!["panic record without a language: re-run the check with the recorded seed".into()];
+    }
+    let res = std::panic::catch_unwind(|| {
+        let a = api::concrete(&code);
+        let _ = a.validate(&input);
+        for t in [0.0, 10.0] {
+            let _ = a.replace(&input, t);
+            let _ = a.scan_text(&input, t);
+        }
+    });
+    match res {
+        Ok(()) => vec![],
+        Err(_) => {
+            let (loc, msg) = crate::core::take_last_panic().unwrap_or(("?".into(), "?".into()));
+            vec![format!("the library panics at {} ({}) on input {:?}", loc, msg, input)]
+        }
     }
 }
 
